@@ -130,6 +130,11 @@ def bits_disjoint(ctx):
     for g in prog.unit(f):
         S = Sym(prog, g)
         for (b, t, k, m) in error_sites(prog, g):
+            from ..lib import exceeds_facts
+            for (x_, n_, gg) in exceeds_facts(S.bool_facts_at(b)):
+                # `width > N` in any spelling (N < width, !(width <= N), ..)
+                if "@Str.0" in x_ and n_ <= 0xff and k == "InvalidInput":
+                    guard = (g, b, "%s > %d" % (x_, n_))
             for (e, tr, gg) in S.bool_facts_at(b):
                 mm = re.search(r"@Str\.0\)? (Gt|Ge) \(?c:(\d+)", e)
                 if mm and tr is True:
